@@ -343,8 +343,15 @@ private:
 			}
 
 			if (! tempList.empty()) {
-				std::lock_guard<Mutex> queueListLock(queueListMutex);
-				queueList.splice(queueList.begin(), tempList);
+				{
+					std::lock_guard<Mutex> queueListLock(queueListMutex);
+					queueList.splice(queueList.begin(), tempList);
+				}
+				// The events put back are pending again. An enqueue that looked for pending events
+				// while they were held here found the queue empty and did not notify: do it now.
+				if(doCanProcess()) {
+					queueListConditionVariable.notify_one();
+				}
 			}
 
 			if(! idleList.empty()) {
